@@ -79,7 +79,7 @@ func (a ask) question() dns.Question {
 }
 
 func (a ask) pre() pre {
-	return pre{Name: asciiLower(a.Name), Type: a.Type, Class: a.Class, CD: a.CD}
+	return pre{Name: canonLower(a.Name), Type: a.Type, Class: a.Class, CD: a.CD}
 }
 
 func (a ask) msg(id uint16) *dns.Msg {
@@ -137,6 +137,7 @@ func newEnv(r *vlib.Run, v cfgVariant) *env {
 		}
 	}
 	u := newUniverse()
+	u.decorate, u.salt, u.count = true, r.RandN("optshape", 0).Uint64(), r.Count
 	st, err := stack.New(stack.Options{Config: cfg, Stub: u.stub})
 	if err != nil {
 		r.Fatalf("stack.New: %v", err)
@@ -301,47 +302,6 @@ func (e *env) serve(route string, a ask) *obs {
 
 // ------------------------------------------------------------------ oracle
 
-// splitLabels splits a presentation name at unescaped dots.
-func splitLabels(name string) []string {
-	var out []string
-	start := 0
-	for i := 0; i < len(name); i++ {
-		switch name[i] {
-		case '\\':
-			if i+1 < len(name) && name[i+1] >= '0' && name[i+1] <= '9' {
-				i += 3
-			} else {
-				i++
-			}
-		case '.':
-			if i > start {
-				out = append(out, name[start:i])
-			}
-			start = i + 1
-		}
-	}
-	if start < len(name) {
-		out = append(out, name[start:])
-	}
-	return out
-}
-
-// nameAtOrBelow: is name equal to or a descendant of anc, label by label,
-// ASCII-case-insensitively?
-func nameAtOrBelow(name, anc string) bool {
-	n, a := splitLabels(asciiLower(name)), splitLabels(asciiLower(anc))
-	if len(a) > len(n) {
-		return false
-	}
-	off := len(n) - len(a)
-	for i := range a {
-		if n[off+i] != a[i] {
-			return false
-		}
-	}
-	return true
-}
-
 func scopeCovers(scope string, client netip.Prefix) bool {
 	if scope == "" {
 		return true
@@ -476,9 +436,29 @@ func (e *env) judge(kind string, c any, route string, a ask, o *obs, suspect *pr
 				return verdict{Kind: "cached-failure"}
 			}
 		}
+		// … or a zone-wide failure was recorded for an ancestor (whole labels)
+		// of the name, in this class; zone failures know no CD and no audience
+		for _, z := range e.u.zoneFailures() {
+			if z.Class == a.Class && nameAtOrBelow(a.Name, z.Name) {
+				return verdict{Kind: "cached-failure"}
+			}
+		}
 		stored := pre{Name: "?"}
 		dims := []string{"unrecorded"}
-		if suspect != nil {
+		switch {
+		case suspect != nil && suspect.Zone:
+			stored = *suspect
+			dims = nil
+			if !nameAtOrBelow(a.Name, stored.Name) {
+				dims = append(dims, "zone-not-ancestor")
+			}
+			if stored.Class != a.Class {
+				dims = append(dims, "class")
+			}
+			if len(dims) == 0 {
+				dims = []string{"unrecorded"}
+			}
+		case suspect != nil:
 			stored = *suspect
 			if dims = diff(stored, hop, client); len(dims) == 0 {
 				dims = []string{"unrecorded"}
@@ -554,7 +534,7 @@ func (e *env) judge(kind string, c any, route string, a ask, o *obs, suspect *pr
 				report(dims, mk.Pre, fmt.Sprintf("%s answered the question %v (client audience %v) with a record admitted for %v", route, hop, client, mk.Pre))
 			}
 			if cn, ok := rr.(*dns.CNAME); ok {
-				hop.Name = asciiLower(cn.Target)
+				hop.Name = canonLower(cn.Target)
 			}
 		}
 		if o.StubCalls == 0 {
